@@ -315,11 +315,18 @@ func init() {
 							}
 							emit(fmt.Sprintf("bk.sendcut %d %s id=%d", subConn, t, ackNext))
 							subOpen = false
-						} else if q == 1 {
-							emit(fmt.Sprintf("bk.send %d PUBACK id=%d", subConn, ackNext))
-						} else {
-							emit(fmt.Sprintf("bk.send %d PUBREC id=%d", subConn, ackNext))
-							emit(fmt.Sprintf("bk.send %d PUBCOMP id=%d", subConn, ackNext))
+						} else if r.Intn(4) == 0 { // a blind acknowledgement (possibly of an id that is not in transit)
+							if q == 1 {
+								emit(fmt.Sprintf("bk.send %d PUBACK id=%d", subConn, ackNext))
+							} else {
+								emit(fmt.Sprintf("bk.send %d PUBREC id=%d", subConn, ackNext))
+								emit(fmt.Sprintf("bk.send %d PUBCOMP id=%d", subConn, ackNext))
+							}
+						} else { // the oldest message this connection has really received
+							emit(fmt.Sprintf("bk.ack %d", subConn))
+							if q == 2 {
+								emit(fmt.Sprintf("bk.ack %d", subConn))
+							}
 						}
 						ackNext++
 					}
